@@ -120,7 +120,8 @@ def c04(A):
                         p["rc"], "no fire in that step" if f is None or f["step"] != step else ("success" if f["ok"] else f["etype"])), step)
                 sn = A.snaps.get(step)
                 st = sn["states"].get(c.a) if sn else None
-                if st is not None and st[3] == c.idx and st[2] == "open" and st[1] is False:
+                again = [x for x in A.step_events(step) if x["k"] == "api" and x["op"] == "connect" and x["i"] > e["i"]]
+                if st is not None and st[3] == c.idx and st[2] == "open" and st[1] is False and not again:
                     o.bad("refuse-not-idle", "protocol is %s after a refused CONNACK" % st[0], step)
             else:
                 if t_end is not None and deadline + late <= t_end:
